@@ -151,6 +151,25 @@ func (sc *SpecCtx) typeByExpr(e ast.Expr) types.Type {
 	return nil
 }
 
+// deref loads the value a pointer-typed spec value points to.
+func (sc *SpecCtx) deref(base SV) SV {
+	q := sc.ex.q
+	pt, ok := base.typ.Underlying().(*types.Pointer)
+	if !ok {
+		sc.fail("deref of non-pointer")
+	}
+	var l *Loc
+	if _, isStruct := pt.Elem().Underlying().(*types.Struct); isStruct {
+		l = &Loc{kind: lkObj, base: base.t, typ: pt.Elem()}
+	} else if at, isArr := pt.Elem().Underlying().(*types.Array); isArr {
+		l = &Loc{kind: lkArray, key: sc.ex.memKey(at.Elem()), base: base.t, typ: pt.Elem()}
+	} else {
+		s := q.so.sortOf(pt.Elem())
+		l = &Loc{kind: lkCell, key: sc.ex.regKey("C:"+s, arrSort(sInt, s)), base: base.t, typ: pt.Elem()}
+	}
+	return SV{sc.ex.load(l, sc.curHeap()), pt.Elem()}
+}
+
 func (sc *SpecCtx) curHeap() *Heap {
 	if sc.inOld {
 		return sc.old
@@ -214,6 +233,11 @@ func (sc *SpecCtx) eval(e ast.Expr) SV {
 			return SV{tInt(0), types.Typ[types.UntypedNil]}
 		}
 		if v, ok := sc.vars[x.Name]; ok {
+			// a captured variable (closure free variable): v.t is the address of its cell and the identifier
+			// evaluates to the cell's content in the current (or old) heap
+			if sc.ex.isFreeVarCell(x.Name, v) {
+				return sc.deref(v)
+			}
 			return v
 		}
 		if sc.pkg == nil {
@@ -274,21 +298,7 @@ func (sc *SpecCtx) eval(e ast.Expr) SV {
 		_ = isPtr
 		return sc.selectField(base, fi)
 	case *ast.StarExpr:
-		base := sc.eval(x.X)
-		pt, ok := base.typ.Underlying().(*types.Pointer)
-		if !ok {
-			sc.fail("deref of non-pointer")
-		}
-		var l *Loc
-		if _, isStruct := pt.Elem().Underlying().(*types.Struct); isStruct {
-			l = &Loc{kind: lkObj, base: base.t, typ: pt.Elem()}
-		} else if at, isArr := pt.Elem().Underlying().(*types.Array); isArr {
-			l = &Loc{kind: lkArray, key: sc.ex.memKey(at.Elem()), base: base.t, typ: pt.Elem()}
-		} else {
-			s := q.so.sortOf(pt.Elem())
-			l = &Loc{kind: lkCell, key: sc.ex.regKey("C:"+s, arrSort(sInt, s)), base: base.t, typ: pt.Elem()}
-		}
-		return SV{sc.ex.load(l, sc.curHeap()), pt.Elem()}
+		return sc.deref(sc.eval(x.X))
 	case *ast.IndexExpr:
 		base := sc.eval(x.X)
 		idx := sc.eval(x.Index)
